@@ -12,6 +12,8 @@ import (
 	"github.com/markkurossi/mpc/circuit"
 
 	"verif/mpcl"
+	"verif/mpclgen"
+	"verif/refsem"
 	"verif/runner"
 	"verif/sess"
 )
@@ -357,6 +359,44 @@ func work(ctx *runner.Ctx) {
 		generalFamily(3, 1, emit)
 		generalFamily(4, 61, emit)
 	}
+	// the statement-level and cast families of the C03 generator, streamed (two-argument mains only)
+	genInputs := func(t refsem.Type) []string {
+		w := t.W
+		if t.Signed {
+			w--
+		}
+		max := new(big.Int).Sub(new(big.Int).Lsh(big.NewInt(1), uint(w)), big.NewInt(1))
+		alt := new(big.Int)
+		for i := 0; i < w; i += 2 {
+			alt.SetBit(alt, i, 1)
+		}
+		return []string{max.String(), alt.String(), "1"}
+	}
+	gidx := 0
+	genEmit := func(g mpclgen.Gen) {
+		gidx++
+		ps := g.P.Funcs[len(g.P.Funcs)-1].Params
+		if len(ps) != 2 || ps[0].T.N > 0 || len(ps[0].T.Fields) > 0 || ps[1].T.N > 0 || len(ps[1].T.Fields) > 0 || ps[0].T.Bool || ps[1].T.Bool {
+			return
+		}
+		if quick && g.Fam == "if-else" && gidx%3 != 0 {
+			return
+		}
+		idx++
+		if !ctx.Mine(idx) || ctx.Expired() {
+			return
+		}
+		gi, ei := genInputs(ps[0].T), genInputs(ps[1].T)
+		src := g.P.Src()
+		for _, pr := range [][2]int{{0, 1}, {1, 0}, {2, 1}} {
+			if quick && pr[0] == 2 {
+				continue
+			}
+			runCase(ctx, cs{Src: src, G: gi[pr[0]], E: ei[pr[1]], OT: "ideal", Fam: "gen-" + g.Fam})
+		}
+	}
+	mpclgen.Statements(quick, genEmit)
+	mpclgen.Casts(quick, genEmit)
 	for fi, f := range fixedPrograms {
 		idx++
 		if !ctx.Mine(idx) {
@@ -391,7 +431,7 @@ func main() {
 	runner.Main(runner.Spec{
 		ID:    "C05",
 		Level: "exploration",
-		Rule: "MPCL programs from an alias grammar, each run in streaming mode (Compiler.Stream / StreamEvaluator over the real p2p.Conn under the scheduler's deterministic schedule) and compared with Compute on its whole compiled circuit: (alias family) a gate-produced value, 1..3 aliases of it or of each other from {move, <<1, >>1, <<3, narrowing+widening cast, bit slice}, then EVERY order of the events {use of each alias, one more use of the aliased value itself, allocation of 1..2 fresh same-width values}, in plain and nested-expression form; (general family) every program of k <= 3 single-operation statements over {+, &, the alias operations}; fixed programs with array updates, slices, struct copies, if/phi, loops, []byte and size-instantiated int signatures; thorough adds a program whose live wire ids exceed 65535. Oracle: no error/deadlock, garbler == evaluator == whole-circuit values, output types equal. " +
+		Rule: "MPCL programs from an alias grammar and from the statement-level and cast families of the C03 program generator (if/else, nested ifs sharing conditions, unrolled loops, arrays, structs, calls, globals, casts), each run in streaming mode (Compiler.Stream / StreamEvaluator over the real p2p.Conn under the scheduler's deterministic schedule) and compared with Compute on its whole compiled circuit: (alias family) a gate-produced value, 1..3 aliases of it or of each other from {move, <<1, >>1, <<3, narrowing+widening cast, bit slice}, then EVERY order of the events {use of each alias, one more use of the aliased value itself, allocation of 1..2 fresh same-width values}, in plain and nested-expression form; (general family) every program of k <= 3 single-operation statements over {+, &, the alias operations}; fixed programs with array updates, slices, struct copies, if/phi, loops, []byte and size-instantiated int signatures; thorough adds a program whose live wire ids exceed 65535. Oracle: no error/deadlock, garbler == evaluator == whole-circuit values, output types equal. " +
 			"distinct_nontrivial = distinct (program, inputs, OT) that reached the oracle",
 		Assumptions: []string{
 			"programs are generated at source level: SSA sequences the front end cannot produce are outside the property",
